@@ -134,6 +134,8 @@ def gen_scenario(rng, *, family='well', cyclic=False, init_env=False,
         # somebody else schedules another, unrelated graph on a backend of his
         # own, in another thread, at the same time: two backends share nothing
         scn['second_master'] = rng.choice((1, 2, 3))
+    if rng.random() < 0.12:
+        scn['pickled_env'] = True
     if rng.random() < 0.1:
         # a first Scheduler is built from the same graph objects and thrown
         # away: constructing one must not change the caller's graphs
@@ -203,12 +205,15 @@ def make_group(rng, scn):
         gdeps = [j for j in range(lo) if rng.random() < 0.6] or [lo - 1]
         gdependees = [k for k in range(lo, ntask) if rng.random() < 0.6] \
             or [lo]
+        # the node depends (hard) on what precedes it; what follows depends
+        # on it through the hard graph, or only through the soft one
+        side = 'soft' if rng.random() < 0.4 else 'hard'
         for k in gdependees:
-            tasks[k]['hard'] = sorted(set(tasks[k]['hard']) | set(gdeps))
+            tasks[k][side] = sorted(set(tasks[k][side]) | set(gdeps))
         for tsk in tasks:
             tsk['soft'] = [j for j in tsk['soft'] if j not in tsk['hard']]
         scn['group'] = {'members': [], 'inner': {}, 'deps': gdeps,
-                        'dependees': gdependees}
+                        'dependees': gdependees, 'dependees_in': side}
         return
     size = rng.choice((2, 2, 3)) if ntask > 3 else 2
     lo = rng.randrange(0, ntask - size + 1)
@@ -324,6 +329,9 @@ def scripted_update(scn, i, run_tag='r'):
                             'nothing': None, 'zero': 0, 'empty': ''}}}
     if tsk.get('shared'):
         upd['shared-area'] = {'by': {name: leaf(run_tag, i, 'shared')}}
+        # top-level values that are not mappings (a seed, a list of names)
+        upd['seed-of-%d' % i] = leaf(run_tag, i, 'seed')
+        upd['list-of-%d' % i] = [leaf(run_tag, i, 'item'), i]
     if tsk.get('hints'):
         # a word for the tasks that depend on this one, left in THEIR entries
         for k, other in enumerate(scn['tasks']):
@@ -590,10 +598,7 @@ def build_graphs(scn, mods, objs):
     by_rank = sorted(range(len(specs)), key=lambda i: rank[i])
     gkey = group.get('in', 'hard') if group else 'hard'
     graphs = {'hard': hard, 'soft': soft}
-    for i in by_rank:
-        for key, graph in graphs.items():
-            if i not in members or key != gkey:
-                graph.add_node(objs[i])
+    sub = None
     if group:
         sub = dg()
         for i in group['members']:
@@ -601,13 +606,25 @@ def build_graphs(scn, mods, objs):
         for i in group['members']:
             for j in group['inner'][str(i)]:
                 sub.add_dependency(objs[i], on=objs[j])
+    # the sub-graph node is not always the last node of its graph
+    sub_pos = (scn.get('salt', 0) // 7) % (len(by_rank) + 1) if group else -1
+    for pos, i in enumerate(by_rank):
+        if pos == sub_pos:
+            graphs[gkey].add_node(sub)
+        for key, graph in graphs.items():
+            if i not in members or key != gkey:
+                graph.add_node(objs[i])
+    if group:
         graphs[gkey].add_node(sub)
         for j in group['deps']:
             graphs[gkey].add_dependency(sub, on=objs[j])
+        dside = group.get('dependees_in', gkey)
         for k in group['dependees']:
-            graphs[gkey].add_dependency(objs[k], on=sub)
+            graphs[dside].add_dependency(objs[k], on=sub)
     implied = set()
+    implied_key = gkey
     if group and not group['members']:
+        implied_key = group.get('dependees_in', gkey)
         implied = {(k, j) for k in group['dependees'] for j in group['deps']}
         # (edges that exist in their own right stay)
         implied -= {(k, j) for k, j in implied
@@ -617,14 +634,24 @@ def build_graphs(scn, mods, objs):
         spec = specs[i]
         for key, graph in graphs.items():
             for j in spec[key]:
-                if key == gkey and (i in members or j in members
-                                    or (i, j) in implied):
+                if key == gkey and (i in members or j in members):
                     continue    # (said by the sub-graph node)
+                if key == implied_key and (i, j) in implied:
+                    continue    # (said by the empty sub-graph node)
                 graph.add_dependency(objs[i], on=objs[j])
     return hard, soft
 
 
 def initial_env(scn, mods):
+    env = _initial_env(scn, mods)
+    if scn.get('pickled_env'):
+        # the environment comes straight out of a file (Env.from_file)
+        import pickle
+        env = pickle.loads(pickle.dumps(env))
+    return env
+
+
+def _initial_env(scn, mods):
     env_cls = mods['env'].Env
     status_enum = mods['task'].TaskStatus
     dct = {}
@@ -1091,6 +1118,10 @@ def shrink_candidates(scn):
     if scn.get('built_twice'):
         new = copy.deepcopy(scn)
         del new['built_twice']
+        yield new
+    if scn.get('pickled_env'):
+        new = copy.deepcopy(scn)
+        del new['pickled_env']
         yield new
     if scn.get('second_master'):
         new = copy.deepcopy(scn)
